@@ -21,6 +21,7 @@
 #include "TFEL/Math/tvector.hxx"
 #include "TFEL/Math/MathException.hxx"
 #include "TFEL/FSAlgorithm/FSAlgorithm.hxx"
+#include "TFEL/Math/qt.hxx"
 #include "TFEL/Math/NumericalIntegration/GaussKronrodQuadrature.hxx"
 #include "TFEL/Math/RungeKutta2.hxx"
 #include "TFEL/Math/RungeKutta4.hxx"
@@ -142,6 +143,19 @@ int main() {
           std::cout << "none\n";
         } else {
           std::cout << bits(std::get<0>(*r)) << " " << bits(std::get<1>(*r)) << "\n";
+        }
+      } else if (f[0] == "gk1q" && a.size() == 2) {
+        // the same one-shot call with quantity-typed bounds (the `ImmutableQuantityConcept` branches of
+        // operator()); same answer format as gk1. (The overload taking NumericalParameters does not compile
+        // for quantities: it compares a quantity with a plain number.)
+        using time_q = tfel::math::qt<tfel::math::unit::Time, double>;
+        const auto fn = integrand(f[1]);
+        const auto fq = [&fn](const time_q x) { return fn(x.getValue()); };
+        const auto r = tfel::math::gauss_kronrod_integrate(fq, time_q(a[0]), time_q(a[1]));
+        if (!r.has_value()) {
+          std::cout << "none\n";
+        } else {
+          std::cout << bits(std::get<0>(*r).getValue()) << " " << bits(std::get<1>(*r).getValue()) << "\n";
         }
       } else if (f[0] == "gkp") {
         std::istringstream is(f[2]);
